@@ -19,8 +19,9 @@ VERIF = os.path.dirname(os.path.dirname(os.path.abspath(__file__)))
 REPO = os.environ.get("HGV_REPO", "/repo")
 BUILD = os.environ.get("HGV_BUILD", os.path.join(VERIF, "build"))   # override only for development in a scratch worktree
 SPEC = os.path.join(VERIF, "spec")
-OUT = os.path.join(VERIF, "out")
-EVID = os.path.join(VERIF, "evidence")
+# a development build (HGV_BUILD) keeps its scratch output and evidence to itself
+OUT = os.path.join(BUILD, "out") if "HGV_BUILD" in os.environ else os.path.join(VERIF, "out")
+EVID = os.path.join(BUILD, "evidence") if "HGV_BUILD" in os.environ else os.path.join(VERIF, "evidence")
 NCPU = os.cpu_count() or 4
 TLC_CP = "/opt/veriftools/tla/tla2tools.jar:/opt/veriftools/tla/CommunityModules-deps.jar"
 
